@@ -204,8 +204,9 @@ func callerMutation(rc *RC, f ingest.Feature) string {
 func runC38(rc *RC) {
 	mutCounter = 0
 	g := newCityGen(rc)
-	kind := rc.Draw(2) // BasicMutableWorld or MutableOverlayWorld
+	kind := rc.Pick(4, 4, 0, 1, 1, 1) // BasicMutableWorld or MutableOverlayWorld over various bases
 	rc.Knob("world-kind", kind)
+	g.noBaseCollections = kind == wkOverlayOverCompact
 	base := g.baseCity(true)
 	w, err := makeMutableWorld(rc, g, kind, base)
 	g.mixedAreas = true // only for features added from here on
